@@ -60,7 +60,7 @@ def gen_big_input(tp: Tape, dtype=None, related=None):
     dtype = dtype or tp.weighted([("float64", 6), ("float32", 2), ("int64", 2), ("int32", 1), ("int8", 1)])
     isz = np.dtype(dtype).itemsize
     target_elems = tp.choice([130_000, 160_000, 300_000]) * 8 // isz  # ~1-2.4 MB per chunk
-    geo = tp.weighted([("square", 4), ("skinny", 3), ("uneven", 3), ("1d", 1), ("3d", 1)])
+    geo = tp.weighted([("square", 4), ("skinny", 3), ("uneven", 3), ("1d", 1), ("3d", 1), ("thin", 3)])
     if related is not None and tp.coin(2, 3):
         shape, chunks = list(related["shape"]), list(related["chunks"])
     elif geo == "1d":
@@ -69,6 +69,13 @@ def gen_big_input(tp: Tape, dtype=None, related=None):
     elif geo == "3d":
         c = max(8, round(target_elems ** (1 / 3)))
         shape, chunks = [c + tp.randint(1, c), c * 2, c + 3], [c, c, c]
+    elif geo == "thin":
+        # chunks only 1-2 elements thick along one axis: a reduced chunk is then about as big as an input chunk
+        c0 = tp.choice([1, 2])
+        c1 = target_elems // c0
+        shape, chunks = [c0 * tp.randint(3, 6), c1], [c0, c1]
+        if tp.coin(1, 3):
+            shape, chunks = shape[::-1], chunks[::-1]
     elif geo == "skinny":
         c0 = tp.choice([8, 16, 40])
         c1 = target_elems // c0
@@ -90,6 +97,30 @@ def generate(tp: Tape, tier: str):
         inputs.append(gen_big_input(tp, dtype=i0["dtype"], related=i0))
     prog = G.generate_program(tp, max_steps=3, min_steps=1, inputs=inputs, only_ops=MEM_OPS, max_outputs=1,
                               size_cap=3_000_000, result_cap=6_000_000, allow_zero=False)
+    k = tp.weighted([("asis", 6), ("same_operand_twice", 1), ("widening_reduction", 2)])
+    if k == "same_operand_twice":
+        # the same array as both operands of an op with a narrower output
+        op = tp.choice(["equal", "not_equal", "less", "greater_equal", "add", "multiply"])
+        if op in G.OPS and (op in ("add", "multiply") or True):
+            prog = dict(inputs=inputs, steps=[dict(op=op, args=[0, 0], p={})], outputs=[len(inputs)])
+    if k == "widening_reduction" and tp.coin(1, 2):
+        # float32 input, chunks 1-2 thick along the reduced axis: the reduced (wider) chunk is as big as an input chunk
+        c0 = tp.choice([1, 2])
+        c1 = tp.choice([260_000, 400_000, 600_000]) // c0
+        inputs = [dict(shape=[c0 * tp.randint(3, 5), c1], chunks=[c0, c1], dtype="float32", src="from_zarr",
+                       data_seed=tp.randint(0, 10**6), nan=False)]
+        prog = dict(inputs=inputs, steps=[dict(op=tp.choice(["mean", "mean", "nanred"]), args=[0],
+                                               p=dict(axis=0, keepdims=False, fn="nanmean"))], outputs=[1])
+    elif k == "widening_reduction" and np.dtype(inputs[0]["dtype"]).kind == "f":
+        # reductions whose intermediate is wider than the input (float32 mean/var: {n: int64, total: float64})
+        ax = tp.choice([0, len(inputs[0]["shape"]) - 1, None])
+        fn = tp.choice(["mean", "var", "nanred"])
+        p_ = dict(axis=ax, keepdims=False)
+        if fn == "var":
+            p_.update(correction=0, fn=tp.choice(["var", "std"]))
+        if fn == "nanred":
+            p_.update(fn=tp.choice(["nanmean", "nansum"]))
+        prog = dict(inputs=inputs, steps=[dict(op=fn, args=[0], p=p_)], outputs=[len(inputs)])
     raw = tp.coin(1, 8)
     original = __import__("copy").deepcopy(prog)
     if not raw:
